@@ -647,7 +647,19 @@ def setup(ctx):
         obs = observed_of(f)
         if not isinstance(obs, dict) or obs.get("only_shared_objects_changed") is not True:
             return False
-        return obs.get("predicted") is None or obs["predicted"] == obs.get("observed")
+        if obs.get("predicted") is not None:
+            return obs["predicted"] == obs.get("observed")
+        # no prediction recorded (audit round 4, B7: this used to be accepted unconditionally).  Accepted only when the HISTORY says why the
+        # harness could not predict the values: after the first concatOther it holds an operation outside the class `_sim_inplace` models — an
+        # edit of the first message only, normalise (keeps the note objects, replaces the waits), a transpose (octave folding / a key signature in
+        # the list end the model), an edit kind the model does not know — or an operation that may raise (scale by a non-integer, cutoff, the
+        # quantisers on a list with fractional ticks).  A history made only of modelled operations that comes without a prediction is reported.
+        # PARTIAL: for these histories the values are still not predicted; what is checked is that only objects the receiver took in changed
+        ops = [tuple(o) for o in f["input"]["ops"]]
+        after = ops[[o[0] for o in ops].index("concatOther") + 1:]
+        modelled = {"setChannel", "editRel", "editRelPeek"} | NEUTRAL | ENDS_SHARING | {"concatOther"}
+        unmodelled = [o for o in after if o[0] not in modelled and not (o[0] == "scale" and isinstance(o[1], int) and not isinstance(o[1], bool) and o[1] >= 1)]
+        return bool(unmodelled) or bool(f["input"].get("halved"))
     ctx.kf_predicates["D24d"] = kf_d24d
 
 
